@@ -16,8 +16,8 @@ sys.path.insert(0, os.path.dirname(os.path.abspath(__file__)))
 import vf  # noqa: E402
 
 ACCTS = ["own", "a", "b"]
-KEYS = ["o1", "o2", "a1", "a2", "b1"]
-OWNER = {"o1": "own", "o2": "own", "a1": "a", "a2": "a", "b1": "b"}
+KEYS = ["o1", "o2", "a1", "b1", "k"]  # key ids; a key is an (account, id) pair
+OWNER = {"o1": "own", "o2": "own", "a1": "a", "b1": "b"}  # sender ids
 
 
 def idx(o, k):
@@ -62,6 +62,19 @@ def c_not_held(prev, ln):
     n = len(ln["pp"])
     ln["pp"] = [h for h in ln["pp"] if not (h["sk"] == ln["sk"] and h["o"] == o and h["k"] == k)]
     return "Held" if len(ln["pp"]) < n else None
+
+
+def c_same_id_merged(prev, ln):
+    """two decisions of one sender on the same key id under two owners are reported as one entry (seeded mutant C18-4)"""
+    if ln["e"] != "TrustMsg" or prev["lv"][idx(ln["from"], ln["sk"])] == "Auth":
+        return None
+    for (o2, k, t2) in scoped(ln):
+        first = [h for h in ln["pp"] if h["sk"] == ln["sk"] and h["k"] == k and h["o"] != o2]
+        if first:
+            ln["pp"] = [h for h in ln["pp"] if not (h["sk"] == ln["sk"] and h["k"] == k and h["o"] == o2)]
+            first[0]["t"] = t2
+            return "Held"
+    return None
 
 
 def c_held_foreign(prev, ln):
@@ -127,7 +140,7 @@ def c_vanished(prev, ln):
     return "Kept"
 
 
-CORRUPTIONS = [c_unauth_applied, c_out_of_scope, c_not_held, c_held_foreign, c_not_fired, c_fired_on_distrust,
+CORRUPTIONS = [c_unauth_applied, c_out_of_scope, c_not_held, c_same_id_merged, c_held_foreign, c_not_fired, c_fired_on_distrust,
                c_kept_after_distrust, c_echo, c_vanished]
 
 
